@@ -123,14 +123,22 @@ def run(chk):
                     # mapped to ReadError and propagated
                     d = describe(prog, fb, {"k": "copy", "pl": t["dest"]})
                     users = [c for blk2, c in fb.calls_to(r"Result::<T, E>::map_err$") if core.op_local(c["args"][0]) == t["dest"]["l"]]
-                    chk.ob("R3.reads", fn, "read_exact failure is mapped (truncation -> error)", bool(users), "a read error is ignored", where=fb.where(blk))
+                    handled = bool(users)
+                    if not handled:
+                        # `match stream.read_exact(..) { Ok(()) => .., Err(_) => return Err(..) }`: the Err edge only leads to error returns
+                        from .c01 import some_edge_of as _soe
+                        oks_ = core.ok_return_blocks(fb, "Ok")
+                        errs_ = _soe(prog, fb, blk, "Err")
+                        later = [b2 for b2, t2 in fb.calls() if core.call_matches(t2, r"Read::read_exact$") and b2 != blk]
+                        from .. import absreach as _ar
+                        handled = bool(errs_) and all(not any(x in _ar.feasible_from(fb, [tgt], prog) for x in oks_ + later) for (s_, tgt) in errs_)
+                    chk.ob("R3.reads", fn, "read_exact failure is mapped (truncation -> error)", handled, "a read error is ignored", where=fb.where(blk))
         for fn, blk in bad:
             chk.ob("R3.reads", fn, "bare read in the blocking decoder", False, "a partial read would be taken for a complete field", where=prog.bodies[fn].where(blk))
         chk.floor("read_exact sites in the frame decoder", good, 5)
         # unmasking: key[i % 4]
         # (closure passed to for_each, or a `for` loop in the decoder itself)
         cl = [c for c in [b] + prog.closures_of(DEC) if c is not None and any(blk["term"] and blk["term"]["k"] == "assert" and blk["term"]["akind"] == "rem_zero" for blk in c.blocks)]
-        chk.floor("unmask site", len(cl), 1)
         for c in cl:
             ok = False
             for blk in c.blocks:
@@ -142,6 +150,21 @@ def run(chk):
                         if per == (4, 4):
                             ok = True
             chk.ob("R2.unmask", c.path, "payload[i] ^= masking_key[i % 4]", ok, "the masking key is not applied with period 4")
+        if not cl and b is not None:
+            # zip form: payload.iter_mut().zip(masking_key.iter().cycle()) — the 4-byte key repeated in step with the payload
+            zips = []
+            for blk, t in b.calls_to(r"Iterator::zip$"):
+                a0, a1 = describe(prog, b, t["args"][0]), describe(prog, b, t["args"][1])
+                key_cycled = desc_contains(a1, lambda y: y[0] == "call" and y[1].endswith("Iterator::cycle")) and \
+                    panics._array_len(b, next((c[2][0] for c in core.desc_calls(a1) if c[1].endswith("::iter") and c[2]), None)) == 4 and \
+                    not [c for c in core.desc_calls(a1) if core.re.search(r"::(skip|rev|step_by|take)$", c[1])]
+                over_payload = desc_contains(a0, lambda y: y[0] == "call" and y[1].endswith("iter_mut")) and not [c for c in core.desc_calls(a0) if core.re.search(r"::(skip|rev|step_by|take)$", c[1])]
+                if key_cycled and over_payload:
+                    zips.append(blk)
+            xors = [(bi, s_) for bi, blk_ in enumerate(b.blocks) for s_ in blk_["stmts"] if s_.get("rv") and s_["rv"].get("k") == "bin" and s_["rv"].get("op") == "BitXor" and s_["pl"]["p"]]
+            cl = zips
+            chk.ob("R2.unmask", DEC, "payload[i] ^= masking_key[i % 4]", bool(zips) and len(xors) == 1, f"zip(payload, cycle(masking_key)) sites: {len(zips)}, xor stores: {len(xors)}")
+        chk.floor("unmask site (index form or zip/cycle form)", len(cl), 1)
     # ---- encoder
     enc = prog.impl_fn(r"^<std::vec::Vec<u8> as std::convert::From<humphrey_ws::frame::Frame>>$", "from")
     chk.floor("From<Frame> for Vec<u8>", len(enc), 1)
